@@ -112,6 +112,8 @@ func checkC15(c *Check) {
 	ruleSyntheticEOF(c, p, "R15.4")
 	ruleOrderingGoroutineLatch(c, p, "R15.5")
 	ruleBlocksCloseLatch(c, p, "R15.6")
+	c.only(func(k string) bool { return strings.HasSuffix(k, "#closeR-only-on-eof") }, func() { ruleEOSCallsCloseR(c, p, "R15.11") })
+	c.RuleDoc["R15.11"] = "= R06.4: the end-of-frame decision is taken only on identity with io.EOF (errors.Is would also match a transport error that wraps io.EOF and turn a source failure into a clean end)"
 	ruleReadValueAfterCheck(c, p, "R15.10")
 	c.RuleDoc["R15.10"] = "the word returned by a source read is used only after its error was tested (a failed read is reported as the source's error, not as a verdict on unread data)"
 	ruleStickyError(c, p, "R15.9")
